@@ -3,7 +3,7 @@ use super::c01::{corpus, logical_from_json, logical_to_json, scale_jobs};
 use super::gen::*;
 use crate::common::{cname, comp_from_name, COMPS};
 use crate::model::*;
-use crate::report::Report;
+use crate::report::{hex, Report};
 use crate::spec::archive::{spec_lookup, validate};
 use pmtiles2::Compression;
 use rayon::prelude::*;
@@ -13,16 +13,18 @@ pub const BUDGET: u64 = 1 << 22;
 
 /// write with `w` and validate with the independent reader. complaints (key, detail) + root window hit flag
 pub fn validate_written(l: &Logical, w: Api, family: &str, lookup_all: bool) -> (Vec<(String, String)>, Option<(u64, u64)>) {
-    let mut bad = Vec::new();
     let bytes = match write_lib(l, w) {
         Ok(b) => b,
-        Err(e) => {
-            bad.push((format!("write-failed/{family}"), format!("{} writer: {e}", w.name())));
-            return (bad, None);
-        }
+        Err(e) => return (vec![(format!("write-failed/{family}"), format!("{} writer: {e}", w.name()))], None),
     };
     let tag = format!("[{} writer, {}]", w.name(), cname(l.settings.internal));
-    let (parsed, complaints) = validate(&bytes, BUDGET);
+    validate_bytes(&bytes, l, &tag, family, lookup_all)
+}
+
+/// validate `bytes` with the independent reader against the logical archive they are meant to hold
+pub fn validate_bytes(bytes: &[u8], l: &Logical, tag: &str, family: &str, lookup_all: bool) -> (Vec<(String, String)>, Option<(u64, u64)>) {
+    let mut bad = Vec::new();
+    let (parsed, complaints) = validate(bytes, BUDGET);
     for c in complaints {
         let clause = c.split(|ch: char| ch == ':' || ch.is_ascii_digit()).next().unwrap_or("x").trim().replace(' ', "-");
         bad.push((format!("invalid/{clause}/{family}"), format!("{tag} {c}")));
@@ -42,7 +44,7 @@ pub fn validate_written(l: &Logical, w: Api, family: &str, lookup_all: bool) -> 
         want_ids.iter().copied().enumerate().filter(|(i, _)| i % 37 == 0 || *i + 1 == want_ids.len()).map(|(_, v)| v).collect()
     };
     for id in ids.iter() {
-        match spec_lookup(&bytes, &p.header, *id) {
+        match spec_lookup(bytes, &p.header, *id) {
             Ok(Some(b)) if &b == l.tiles.get(id).unwrap() => {}
             Ok(Some(b)) => bad.push((format!("lookup-bytes/{family}"), format!("{tag} spec lookup of id {id} yields {} instead of {}", crate::report::brief(&b), crate::report::brief(&l.tiles[id])))),
             Ok(None) => bad.push((format!("lookup-missing/{family}"), format!("{tag} spec lookup does not find id {id}"))),
@@ -50,7 +52,7 @@ pub fn validate_written(l: &Logical, w: Api, family: &str, lookup_all: bool) -> 
         }
         for nb in [id.wrapping_add(1), id.wrapping_sub(1)] {
             if !l.tiles.contains_key(&nb) {
-                match spec_lookup(&bytes, &p.header, nb) {
+                match spec_lookup(bytes, &p.header, nb) {
                     Ok(None) => {}
                     Ok(Some(_)) => bad.push((format!("lookup-phantom/{family}"), format!("{tag} spec lookup finds id {nb} which was never added"))),
                     Err(e) => bad.push((format!("lookup-error/{family}"), format!("{tag} spec lookup of id {nb}: {e}"))),
@@ -171,6 +173,81 @@ pub fn run(tier: &str) -> i32 {
             rep.violation(k, d, json!({"kind":"window","family":fam,"n":n,"comp":cname(c),"writer":w.name()}));
         }
     }
+    // archives written after opening and editing an existing archive: the base is library-written (every small map over 3
+    // ids with non-empty metadata) or foreign (free layout), opened by either reader, edited (nothing; internal
+    // compression changed to each other one; metadata replaced / re-assigned unchanged; tiles removed and added; the
+    // other header settings changed) and written by the flavour that opened it
+    {
+        let edits_for = |l: &Logical| -> Vec<(&'static str, Edit)> {
+            let mut v: Vec<(&'static str, Edit)> = vec![("none", Edit::default())];
+            for c in COMPS {
+                if c != l.settings.internal {
+                    let mut s = l.settings.clone();
+                    s.internal = c;
+                    v.push(("internal-compression", Edit { settings: Some(s), ..Edit::default() }));
+                }
+            }
+            v.push(("meta-reassigned", Edit { meta: Some(l.meta.clone()), ..Edit::default() }));
+            v.push(("meta-replaced", Edit { meta: Some(json!({"other":[1,2,{"k":null}]}).as_object().unwrap().clone()), ..Edit::default() }));
+            v.push(("meta-emptied", Edit { meta: Some(serde_json::Map::new()), ..Edit::default() }));
+            let ks = contents4();
+            let first = l.tiles.keys().next().copied();
+            v.push(("tiles", Edit { remove: first.into_iter().collect(), add: vec![(5, ks[1].clone()), (3, ks[2].clone())], ..Edit::default() }));
+            let mut s = l.settings.clone();
+            s.tile_type = pmtiles2::TileType::Mvt;
+            s.tile_compression = Compression::GZip;
+            s.min_zoom = 2;
+            s.max_zoom = 9;
+            s.center_zoom = 4;
+            s.coords = [-10.5, -20.25, 30.125, 40.0, 1.5, 2.5];
+            v.push(("settings", Edit { settings: Some(s), ..Edit::default() }));
+            v
+        };
+        let mut bases: Vec<(Logical, Vec<u8>, String)> = Vec::new();
+        for c in COMPS {
+            for (i, mut l) in small_maps(3, c).into_iter().enumerate() {
+                if !thorough && c == Compression::Brotli && i % 5 != 0 {
+                    continue;
+                }
+                l.meta = json!({"name":"x","version":2,"note":"\u{e9}"}).as_object().unwrap().clone();
+                let w = if i % 2 == 0 { Api::Sync } else { Api::Async };
+                match write_lib(&l, w) {
+                    Ok(b) => bases.push((l, b, format!("lib {} writer", w.name()))),
+                    Err(e) => rep.violation("write-failed/rewrite-base", e, json!({"kind":"logical","family":"rewrite-base","writer":w.name(),"archive":logical_to_json(&l)})),
+                }
+            }
+        }
+        for (name, bytes, l) in super::foreign::rewrite_bases() {
+            bases.push((l, bytes, name));
+        }
+        let res: Vec<(usize, Api, &'static str, Edit, Vec<(String, String)>)> = bases
+            .par_iter()
+            .enumerate()
+            .flat_map_iter(|(i, (l, bytes, origin))| {
+                let mut out = Vec::new();
+                for r in APIS {
+                    for (ename, e) in edits_for(l) {
+                        let want = e.applied_to(l);
+                        let tag = format!("[{origin}, opened by the {} reader, edit {ename}, written by the {} writer, {}]", r.name(), r.name(), cname(want.settings.internal));
+                        let bad = match edit_rewrite(bytes, r, &e) {
+                            Ok(b2) => validate_bytes(&b2, &want, &tag, "rewrite", true).0,
+                            Err(x) => vec![("write-failed/rewrite".to_string(), format!("{tag} {x}"))],
+                        };
+                        out.push((i, r, ename, e, bad));
+                    }
+                }
+                out
+            })
+            .collect();
+        rep.eval(res.len() as u64);
+        rep.nontrivial(res.iter().filter(|r| !bases[r.0].0.tiles.is_empty()).count() as u64);
+        rep.count("archives_rewritten_after_open_and_edit", res.len() as u64);
+        for (i, r, ename, e, bad) in res {
+            for (k, d) in bad.into_iter().take(3) {
+                rep.violation(k, d, json!({"kind":"rewrite","api":r.name(),"edit_name":ename,"edit":e.to_json(),"base_hex":hex(&bases[i].1),"base":logical_to_json(&bases[i].0)}));
+            }
+        }
+    }
     // thorough: a second independent reading by tools/pyreader.py (Python standard library; none + gzip)
     if thorough {
         pyreader_crosscheck(&rep);
@@ -248,9 +325,28 @@ fn pyreader_crosscheck(rep: &Report) {
 }
 
 pub fn replay(case: &Value) -> Vec<String> {
-    let w = if case["writer"].as_str() == Some("async") { Api::Async } else { Api::Sync };
+    let w = if case["writer"].as_str() == Some("async") || case["api"].as_str() == Some("async") { Api::Async } else { Api::Sync };
     let comp = comp_from_name(case["comp"].as_str().unwrap_or("none"));
     let n = case["n"].as_u64().unwrap_or(0) as usize;
+    if case["kind"].as_str() == Some("rewrite") {
+        let base = crate::report::unhex(case["base_hex"].as_str().unwrap_or(""));
+        let l0 = logical_from_json(&case["base"]);
+        let ej = &case["edit"];
+        let mut e = Edit::default();
+        if !ej["settings"].is_null() {
+            e.settings = Some(logical_from_json(&json!({"internal": ej["settings"]["internal"], "settings": ej["settings"]})).settings);
+        }
+        if let Some(m) = ej["meta"].as_object() {
+            e.meta = Some(m.clone());
+        }
+        e.remove = ej["remove"].as_array().map(|a| a.iter().filter_map(Value::as_u64).collect()).unwrap_or_default();
+        e.add = ej["add"].as_array().map(|a| a.iter().map(|p| (p[0].as_u64().unwrap_or(0), crate::report::unhex(p[1].as_str().unwrap_or("")))).collect()).unwrap_or_default();
+        let want = e.applied_to(&l0);
+        return match edit_rewrite(&base, w, &e) {
+            Ok(b2) => validate_bytes(&b2, &want, "[replay]", "rewrite", true).0.into_iter().map(|(k, d)| format!("{k}: {d}")).collect(),
+            Err(x) => vec![format!("write-failed/rewrite: {x}")],
+        };
+    }
     let l = match case["kind"].as_str() {
         Some("scale") => scale_family(case["pattern"].as_u64().unwrap_or(0) as u32, n, comp),
         Some("window") => window_logical(case["family"].as_u64().unwrap_or(0) as u32, n, comp),
